@@ -83,7 +83,9 @@ def check(run, model, tier):
     selfn, namep = append.params[0], append.params[1]
     snodes = [n for n in g.nodes if n.kind == 'stmt' and isinstance(n.ast, ast.Assign) and
               any(isinstance(t, ast.Subscript) and isinstance(t.value, ast.Name) and t.value.id == selfn for t in n.ast.targets)]
-    run.floor('registry stores in append', len(snodes), 1)
+    call_stores = [n for n in g.nodes if n.kind not in ('entry', 'exit', 'xexit', 'def') and any(isinstance(c.func, ast.Attribute) and c.func.attr in ('setdefault', 'update', '__setitem__')
+                                                                                                  and isinstance(c.func.value, ast.Name) and c.func.value.id == selfn for c in n.calls())]
+    run.floor('registry stores in append', len(snodes) + len(call_stores), 1)
     tests = [t for t in g.nodes if t.kind == 'test' and isinstance(t.ast, ast.Compare) and isinstance(t.ast.ops[0], (ast.In, ast.NotIn))
              and isinstance(t.ast.comparators[0], ast.Name) and t.ast.comparators[0].id == selfn]
     numbering_shape = []
@@ -162,7 +164,8 @@ def check(run, model, tier):
 
     def built_world(user_names):
         reg = _Reg()
-        env = {init.params[0]: reg, '__mutable__': True, '__methods__': methods}
+        env = dict(pureeval.module_constants(model, src.module))
+        env.update({init.params[0]: reg, '__mutable__': True, '__methods__': methods})
         for st in init.node.body:
             if isinstance(st, ast.Expr) and isinstance(st.value, ast.Constant):
                 continue
@@ -180,7 +183,7 @@ def check(run, model, tier):
             if isinstance(v, ast.Call) and norm(v.func).split('.')[-1] in LOCK_CTORS:
                 setattr(reg, k, pureeval.Obj())
         for nm in user_names:
-            pureeval.call(append.node, [reg, nm], mutable=True, methods=methods)
+            pureeval.call(append.node, [reg, nm], mutable=True, methods=methods, globals_=pureeval.module_constants(model, src.module))
         return reg
     eval_numbering = None
     worlds = []
@@ -245,7 +248,7 @@ def check(run, model, tier):
         try:
             for arg, want in probes:
                 try:
-                    got = pureeval.call(iis.node, [reg, arg], strict_locals=True, methods=methods)
+                    got = pureeval.call(iis.node, [reg, arg], strict_locals=True, methods=methods, globals_=pureeval.module_constants(model, src.module))
                 except pureeval.Raised as ex:
                     got = 'raises ' + ex.what
                 n_eval += 1
@@ -258,7 +261,7 @@ def check(run, model, tier):
         try:
             for k, v in reg.items():
                 try:
-                    got = pureeval.call(nfs.node, [reg, v], strict_locals=True, methods=methods)
+                    got = pureeval.call(nfs.node, [reg, v], strict_locals=True, methods=methods, globals_=pureeval.module_constants(model, src.module))
                 except pureeval.Raised as ex:
                     got = 'raises ' + ex.what
                 n_eval += 1
@@ -336,8 +339,15 @@ def check(run, model, tier):
                 # inside `for key, value in signals.items(): if value == signal:`
                 loops = [h for h in g2.loop_heads() if h.kind == 'for' and any(x is n.ast for x in ast.walk(h.stmt))]
                 ok = bool(loops) and any('signals.items()' in norm(h.stmt.iter) for h in loops)
-                eqs = [t for t in g2.nodes if t.kind == 'test' and isinstance(t.ast, ast.Compare) and isinstance(t.ast.ops[0], ast.Eq) and sigp in norm(t.ast)
-                       and guarded_by_edge(g2, n, t, 'true')]
+                eqs = []
+                for t in g2.nodes:
+                    if t.kind != 'test':
+                        continue
+                    ti_, tp_ = _sn(t.ast)
+                    if isinstance(ti_, ast.Compare) and len(ti_.ops) == 1 and isinstance(ti_.ops[0], (ast.Eq, ast.NotEq)) and sigp in norm(ti_):
+                        lab_ = 'true' if (tp_ == isinstance(ti_.ops[0], ast.Eq)) else 'false'
+                        if guarded_by_edge(g2, n, t, lab_):
+                            eqs.append(t)
                 via_reader = isinstance(n.ast.value, ast.Call) and norm(n.ast.value.func) == 'signals.name_for_signal' and len(n.ast.value.args) == 1 \
                     and isinstance(n.ast.value.args[0], ast.Name) and n.ast.value.args[0].id == sigp
                 run.inst('REG.inverse', ei, 'number branch: name = key whose value equals the number', (ok and bool(eqs)) or via_reader,
